@@ -54,7 +54,7 @@ class Gen:
             failif = ""
             if r.random() < (0.6 if f == "C10" else 0.12): failif = r.choice(self.markers)
             c = cmd(ins=ins, outs=outs, tag=name, reads=reads, failif=failif, failpt=r.choice(["before", "after"]),
-                    ami=r.random() < 0.2, aood=r.random() < 0.05, keep=r.random() < (0.45 if f in ("C11", "C09") else 0.2),
+                    ami=r.random() < 0.2, aood=r.random() < 0.05, amo=False, keep=r.random() < (0.45 if f in ("C11", "C09") else 0.2),
                     depstyle=("depinfo" if r.random() < (0.5 if f == "C11" else 0.2) else "makefile"),
                     depsok=not (f == "C11" and r.random() < 0.12),
                     env=[["K", "v"]] if r.random() < 0.2 else [],
@@ -265,6 +265,9 @@ class Gen:
         if f == "C14": desc = self.add_stale(desc)
         r3 = random.Random("mut/%s/%d" % (f, self.seed))      # (a stream of its own: the histories of a seed stay what they were)
         self.r3 = r3
+        if f == "C09":      # allow-modified-outputs: a changed definition must still re-run the command (no "update if newer" across signatures)
+            for n, c in desc["cmds"].items():
+                if c["tool"] == "shell" and r3.random() < 0.2: c["amo"] = True
         for n, c in desc["cmds"].items():          # some eligible shell commands are declared with `tool: clang`
             if self.clang_ok(c) and r3.random() < 0.15: c["_toolspell"] = "clang"; c["_relreads"] = False
         db = r.random() < 0.9; serial = r.random() < 0.5
